@@ -73,13 +73,18 @@ def run_one(it, seed, policy):
         ep.link.take_frames()
         rng = random.Random(seed)
         pos = 0
+        fast = bool(it.get("fast"))
+        if fast:
+            # the peer closes right behind its last byte: the answers to its complete requests race the close handling
+            ep.link.feed(data)
+            pos = len(data)
         while pos < len(data):
             k = len(data) - pos if it["chunk"] == "one" else min(len(data) - pos, rng.choice([1, 2, 3, 7, 20]))
             ep.link.feed(data[pos:pos + k])
             pos += k
             s.settle()
-        fr = ep.link.take_frames()
-        rec["reqs"] = complete_linktests(frames, it["cut"])
+        fr = [] if fast else ep.link.take_frames()
+        rec["reqs"] = 0 if fast else complete_linktests(frames, it["cut"])      # fast: the peer is gone, nobody counts the answers
         rec["rsps"] = len([f for f in fr if f.get("stype") == 6])
         e0 = len(ep.link.events)
         p0 = len(ep.events)
@@ -171,6 +176,16 @@ def run_tcp_one(it):
             ok, why = s.run_until(pred, max_dt=dt)
             return ok
 
+        hold = {"armed": False, "inside": simrt.Event(), "release": simrt.Event()}
+
+        def slow_connected(_d):
+            # the application's "connected" callback, slow once: it runs on the thread that established the connection
+            if hold["armed"]:
+                hold["armed"] = False
+                hold["inside"].set()
+                hold["release"].wait(5.0)
+
+        proto.events.connected += slow_connected
         for step in it["script"]:
             rec["steps"].append(step)
             if step == "enable":
@@ -201,6 +216,43 @@ def run_tcp_one(it):
                 if not wait(lambda: proto.connection_state.current.name != "NOT_CONNECTED", 30):
                     fail("connection-not-reported")
                     return
+            elif step == "connect_held":
+                # the peer connects; the application's connected callback is still running when the next step begins
+                hold["armed"] = True
+                if passive:
+                    peer["ep"] = net.dial(5002)
+                    if peer["ep"] is None:
+                        fail("passive-endpoint-not-listening")
+                        return
+                else:
+                    if peer["lst"] is None:
+                        peer["lst"] = net.listen_raw(5002)
+                if not hold["inside"].wait(30.0):
+                    fail("connection-not-reported")
+                    return
+                if not passive:
+                    live_ = [e for e in peer["lst"] if not e.fin and not e.closed]
+                    peer["ep"] = live_[-1] if live_ else None
+                    del peer["lst"][:]
+            elif step == "disable_while_held":
+                dn = {"v": False}
+
+                def dis2(dn=dn):
+                    proto.disable()
+                    dn["v"] = True
+
+                simrt.Thread(target=dis2, name="app_disable").start()
+                s.advance(0.5)                 # disable() has reached its wait for the connecting thread
+                hold["release"].set()
+                if not wait(lambda: dn["v"], 60):
+                    fail("disable-did-not-return")
+                    return
+                if proto.connection_state.current.name != "NOT_CONNECTED":
+                    fail("not-NOT_CONNECTED-after-disable")
+                    return
+                if not passive:
+                    net.raw_accept.pop(5002, None)
+                    peer["lst"] = None
             elif step == "select":
                 ep = peer["ep"]
                 if passive:
@@ -297,6 +349,10 @@ TCP_SCRIPTS = {
     "loss-then-disable": ["enable", "connect", "select", "peer_close", "disable"],
     "loss-partial-reconnect": ["enable", "connect", "select", "partial", "peer_close", "wait", "connect", "select", "disable"],
     "disable-enable-cycle": ["enable", "connect", "select", "disable", "enable", "connect", "select", "disable"],
+    # disable() the moment the connection is reported (the server thread may still be inside its accept sequence), then use the endpoint again
+    "disable-right-after-accept-then-again": ["enable", "connect", "disable", "enable", "connect", "select", "disable"],
+    # disable() while the application's connected callback still runs on the accepting / connecting thread, then use the endpoint again
+    "disable-inside-connected-callback-then-again": ["enable", "connect_held", "disable_while_held", "enable", "connect", "select", "disable"],
     "idle-disable-enable": ["enable", "disable", "enable", "connect", "select", "disable"],
     "loss-and-disable-at-once": ["enable", "connect", "select", "peer_close_fast", "disable", "enable", "connect", "select", "disable"],
     "loss-partial-and-disable-at-once": ["enable", "connect", "select", "partial", "peer_close_fast", "disable", "enable", "connect", "select",
@@ -369,6 +425,19 @@ def run(ctx: Ctx):
                     for chunk in (["one"] if ctx.quick and name != "lt" else ["one", "rand"]):
                         tid += 1
                         items.append({"id": tid, "stream": name, "cut": cut, "sel": sel, "fault": fault, "chunk": chunk})
+    # complete requests, the peer closing right behind the last byte, then reconnect + select + a data message
+    for name, frames in streams().items():
+        if name == "data_big":
+            continue
+        bounds, acc = [], 0
+        for fb in frames:
+            acc += len(fb)
+            bounds.append(acc)
+        for cut in bounds:
+            for sel in (False, True):
+                for rep in range(2 if ctx.quick else 8):
+                    tid += 1
+                    items.append({"id": tid, "stream": name, "cut": cut, "sel": sel, "fault": "reconnect", "chunk": "one", "fast": True})
     jobs = []
     pols = ["fifo", "pct", "random"] if not ctx.quick else ["fifo", "pct"]
     for pi, pol in enumerate(pols):
